@@ -33,6 +33,24 @@ PLAN = {
                   R("exhaustive", "^TestExhaustive$", shards=16, env={"C01_EXH_SEGS": 2, "C01_EXH_SUBSET": 3, "C01_EXH_PATHLEN": 7}, timeout=3000),
                   R("random", "^(TestRandom|TestFanOut)$", checks=150000, shards=16, timeout=3000)],
     ),
+    "C08": dict(
+        pkg="c08", level="exploration",
+        technique="differential testing of trailing-slash detection and dispatch against the reference matcher applied to the slash-adjusted path, plus a metamorphic relation (irrelevant routes) and a resolve-the-Location round trip",
+        level_text="For generated route sets, trailing-slash options (global and per route), methods (GET, POST, CONNECT, custom) and encoded "
+                   "request targets with reserved characters and query strings, the reference matcher run on the path and on its "
+                   "slash-adjusted form predicts the tsr flag, the route and its parameters; the dispatch rules of the property predict "
+                   "served / redirected / unmatched; the Location header is parsed and resolved like a client would. Small pools are enumerated exhaustively.",
+        level_note="Trusts the reference matcher and net/url's reference resolution; ambiguity (catch-all value starting with '/') and open finding E are counted and not judged.",
+        rule="cases: (options, route set, request target); non-trivial = the reference prescribes a trailing-slash action and the method has "
+             ">= 2 routes; distinct by (options, method, sorted patterns, host, target)",
+        assumptions=["routing path = URL.RawPath when present, URL.Path otherwise (documented in fox)", "no empty path segments"],
+        quick=[REPLAY,
+               R("exhaustive", "^TestExhaustive$", env={"C08_EXH_SEGS": 2, "C08_EXH_SUBSET": 2, "C08_EXH_PATHLEN": 6}, timeout=900),
+               R("random", "^TestRandom$", checks=25000, timeout=900)],
+        thorough=[REPLAY,
+                  R("exhaustive", "^TestExhaustive$", shards=16, env={"C08_EXH_SEGS": 2, "C08_EXH_SUBSET": 3, "C08_EXH_PATHLEN": 7}, timeout=3000),
+                  R("random", "^TestRandom$", checks=200000, shards=16, timeout=3000)],
+    ),
     "C17": dict(
         pkg="c17", level="exploration",
         technique="exhaustive small-alphabet enumeration + rapid random generation + native fuzzing against a split-and-stack reference implementation",
